@@ -376,7 +376,19 @@ def roundtrip_jobs(prop, tier, seed):
              gen_job('rt_multi_p10b', 'complex', 10, depth=1, style=style, roundtrips=rts, MaxAnns=10, MaxRes=2, MaxData=6, MaxSets=2),
              gen_job('rt_reads_p6', 'remove', 6, depth=1, style=style, reads=['lookup', 'anntext', 'segment'], per_state=True, roundtrips=rts, **big),
              gen_job('rt_offsets_p7', 'offsets', 7, depth=1, style=style, roundtrips=rts, per_state=True, MaxAnns=12, MaxRes=3),
-             gen_job('rt_sim_all', 'all', 1, simulate=12 if quick else 150, simdepth=6 if quick else 10, size='m', style=style, roundtrips=rts,
+             # the special-purpose preludes: relative complex selectors (range compression), duplicate data references, identifiers
+             # that look like temporary ones, nested composite targets, selectors over pairs of keys / data, a key without data
+             gen_job('rt_complexrel_p13', 'complexrel', 13, depth=1, style=style, roundtrips=rts, sample_mod=4 if quick else 1, MaxAnns=10, MaxRes=2, MaxData=4),
+             gen_job('rt_dup_p14', 'remove', 14, depth=1, style=style, roundtrips=rts, MaxAnns=10, MaxRes=2, MaxData=4),
+             gen_job('rt_tempish_p15', 'tempish', 15, depth=1, style=style, roundtrips=rts, MaxAnns=10, MaxRes=4, MaxData=6, MaxSets=4, MaxKeys=4),
+             gen_job('rt_nested_p17', 'remove', 17, depth=1, style=style, roundtrips=rts, MaxAnns=12, MaxRes=2),
+             gen_job('rt_meta_p10', 'complexmeta', 10, depth=1, style=style, roundtrips=rts, sample_mod=4 if quick else 1, MaxAnns=10, MaxRes=3, MaxData=8, MaxSets=2, MaxKeys=4),
+             gen_job('rt_nodata_p18', 'remove', 18, depth=1, style=style, roundtrips=rts, MaxAnns=10, MaxRes=2, MaxData=4, MaxKeys=5)]
+    if prop != 'C15':
+        # values that only differ in type ("1" / 1 / 1.0 / true / "yes") and IRI-like strings
+        jobs += [gen_job('rt_values_w', 'core', 1, depth=1 if quick else 2, size='w', style=style, roundtrips=rts, sample_mod=1 if quick else 8, MaxAnns=10, MaxRes=3, MaxData=10, MaxSets=2, MaxKeys=4),
+                 gen_job('rt_values_i', 'core', 2, depth=1, size='i', style=style, roundtrips=rts, MaxAnns=10, MaxRes=3, MaxData=10, MaxSets=2, MaxKeys=4)]
+    jobs += [gen_job('rt_sim_all', 'all', 1, simulate=12 if quick else 150, simdepth=6 if quick else 10, size='m', style=style, roundtrips=rts,
                      MaxAnns=6, MaxData=4, MaxRes=2)]
     return jobs
 
